@@ -1162,8 +1162,13 @@ func fatalSummary(stderr string) (what, site string) {
 			if i := strings.LastIndex(s, "("); i > 0 {
 				s = s[:i]
 			}
-			site = s
-			break
+			if site == "?" {
+				site = s
+			}
+			if strings.HasPrefix(s, "html/boxes.") && !strings.Contains(s, "AnonymousFrom") { // first frame of the package under test
+				site = s
+				break
+			}
 		}
 	}
 	if what == "" {
@@ -1289,7 +1294,7 @@ func worker(tier string, seed uint64, modelPath, repo string, out *res.Result) e
 			out.Write(seg)
 		}
 	}
-	nDocs := 0
+	nDocs, lastFindings := 0, 0
 	err = steps(tier, seed, out, func(idx int, kind, src string, cs uint64) error {
 		if idx < start {
 			return nil
@@ -1327,7 +1332,8 @@ func worker(tier string, seed uint64, modelPath, repo string, out *res.Result) e
 				return err
 			}
 		}
-		if idx%1000 == 999 {
+		if idx%200 == 199 || len(out.Findings) != lastFindings {
+			lastFindings = len(out.Findings)
 			flush()
 		}
 		return nil
